@@ -324,6 +324,15 @@ func frScenarios(rng *rand.Rand, tier string) []frScenario {
 		// the output directory is a symbolic link; constant recorder, one finished and one open recording
 		{true, join(st, w(11), sp, st, w(21, 22)), false, true},
 	}
+	if !constOK {
+		var keep []frScenario
+		for _, sc := range scs {
+			if !sc.Const {
+				keep = append(keep, sc)
+			}
+		}
+		scs = keep
+	}
 	if tier == "thorough" {
 		var many []int
 		for i := 0; i < 400; i++ { // enough frames for bufio flushes of the scratch file
@@ -331,6 +340,9 @@ func frScenarios(rng *rand.Rand, tier string) []frScenario {
 		}
 		scs = append(scs, frScenario{false, join(st, w(many...), sp, st, w(5), ab, st, w(6, 7), sp), false, false},
 			frScenario{true, join(st, w(many...), sp, st, w(8)), false, false})
+		if !constOK {
+			scs = scs[:len(scs)-1]
+		}
 	}
 	return scs
 }
